@@ -507,7 +507,7 @@ class Interp:
                     yield o.ret, o.conds
             return
         if f[0] == "fn":
-            target = self.F.fn(f[1])
+            target = self.F.fn(f[1]) or (self.F.fn(f[2]) if len(f) > 2 and f[2] else None)   # the fn item's instance may be a local impl
             if target is not None:
                 for o in self.run(target, list(args), depth + 1):
                     if o.ret[0] != "diverge":
@@ -516,7 +516,7 @@ class Interp:
             d = f[1]
             m = self.models.get(d)
             if m is not None:
-                fake_t = {"callee": {"def": d, "inst": f[2] or d}, "args": [], "dest": {"l": 0, "p": []}}
+                fake_t = {"callee": {"def": d, "inst": f[2] or d, "resolved": f[2] or d}, "args": [], "dest": {"l": 0, "p": []}}
                 for ret, writes, c2 in m(self, fn, st, fake_t, list(args), depth):
                     yield ret, c2
                 return
